@@ -46,6 +46,7 @@ def generate(tier, rng):
                 for k in KINDS:
                     if k == "cursor_array" and cap not in ARR_CAPS: continue
                     out.append("SINKE %s %d %s %s" % (k, cap, key, t))
+    out += ["EWM %d" % c for c in range(0, 15)]
     return out
 
 def nontrivial(line, impl):
